@@ -121,6 +121,22 @@ def causality(ctx, crate, tag):
                    "on_constraint_candidates_available"):
         mech.callers_exact(ctx, "causality", crate, ENC + callee, {ENC + "on_task_result"}, tag, 1)
     mech.callers_exact(ctx, "causality", crate, ENC + "on_task_result", {ENC + "encode"}, tag, 1)
+    # the cache's fetching entry points are only entered from the encoder's queued futures, from each other (a derived list needs
+    # the package's candidates) and from the snapshot capture; a fetch issued from the decision loop / solve() is not caused by
+    # any dependency the solver obtained (seed C09-13)
+    SNAP = "resolvo::snapshot::DependencySnapshot::from_provider_async"
+    GRAPH = "resolvo::conflict::Conflict::graph"
+    entry = {
+        "get_or_cache_candidates": {ENC + "queue_package", CACHE + "get_or_cache_matching_candidates", CACHE + "get_or_cache_non_matching_candidates",
+                                    CACHE + "get_or_cache_sorted_candidates_for_version_set", SNAP},
+        "get_or_cache_dependencies": {ENC + "queue_solvable", SNAP},
+        "get_or_cache_matching_candidates": {CACHE + "get_or_cache_sorted_candidates_for_version_set", SNAP},
+        "get_or_cache_non_matching_candidates": {ENC + "queue_constraint"},
+        "get_or_cache_sorted_candidates_for_version_set": {ENC + "queue_requirement", CACHE + "get_or_cache_sorted_candidates"},
+        "get_or_cache_sorted_candidates": {GRAPH},
+    }
+    for callee, allowed in entry.items():
+        mech.callers_exact(ctx, "causality", crate, CACHE + callee, allowed, tag, 1)
     # version sets for which packages are queued come from the Dependencies value handed to the consumer
     b = body_by_key(crate, ENC + "on_dependencies_available")
     if b is not None:
